@@ -148,6 +148,8 @@ def _apply_contract_tail(ctx, c, fn, target, ns, ghosts):
     k = ctx.choose(ncases, "outcome@" + c.short) if ncases > 1 else 0
     if k > 0:
         exc_cls = c.raises[k - 1]
+        if c.proof == "table":
+            ctx.summary_returns.append((c.label, None, exc_cls))
         exc = SExc(exc_cls, (ctx.fresh_str("msg"),))
         if c.exceptional is not None:
             ns2 = dict(ns, exc=exc, old=old)
@@ -674,6 +676,9 @@ def make_witness(ctx, c, ob):
     w["choices"] = [int(c) if not isinstance(c, bool) and c is not None else bool(c) for c in w["choices"]]
     w["stubs"] = []
     for label, rname, shape in getattr(ctx, "summary_returns", []):
+        if rname is None:
+            w["stubs"].append([label, {"t": "raise", "cls": shape.__module__ + ":" + shape.__qualname__}])
+            continue
         try:
             w["stubs"].append([label, shape.concretize(vals, rname, None)])
         except Exception as e:  # noqa
